@@ -94,6 +94,7 @@ static void tiny(int na, int nb) {
 
 /* structured systems: B = A*X0 (consistent) and every single bit flip in a set of rows */
 static void on_spec(const rk_spec *s, void *u) {
+  if (s->fam == F_RECW && s->c > 9000) return; /* the kernel is n x (n-r) and the right-hand side has max(m,n) rows: the very wide members of the family are out of reach here (C03 runs them) */
   (void)u;
   char d0[128]; rk_str(s, d0, sizeof d0);
   pm *A = NULL;
@@ -135,6 +136,6 @@ void prop_enumerate(void) {
   if (!strcmp(mode, "tiny")) tiny(vx_tier ? 12 : 9, vx_tier ? 10 : 8);
   else if (!strcmp(mode, "lift")) rk_enumerate(1 << F_LIFT, 0, vx_tier ? 9 : 6, on_spec, NULL);
   else if (!strcmp(mode, "struct")) rk_enumerate((1 << F_ECH) | (1 << F_RK) | (1 << F_BND), 0, 0, on_spec, NULL);
-  else if (!strcmp(mode, "rec")) rk_enumerate(1 << F_REC, 0, 0, on_spec, NULL);
+  else if (!strcmp(mode, "rec")) rk_enumerate((1 << F_REC) | (1 << F_RECW), 0, 0, on_spec, NULL);
 }
 int main(int argc, char **argv) { return vx_main(argc, argv); }
